@@ -201,7 +201,8 @@ def interpreter_exit_cases(ctx):
 
 def check(ctx):
     for c, r, m in c01.execute(gen_cases(ctx)):
-        judge(ctx, c, r, m)
+        with ctx.guard(c):
+            judge(ctx, c, r, m)
     interpreter_exit_cases(ctx)
 
 
@@ -211,7 +212,8 @@ def replay(ctx, data):
         interpreter_exit_cases(ctx)
         return
     for c, r, m in c01.execute([case], workers=1):
-        judge(ctx, c, r, m)
+        with ctx.guard(c):
+            judge(ctx, c, r, m)
 
 
 if __name__ == '__main__':
